@@ -45,6 +45,8 @@ STUBS = {
     'Pistache::Http::Private::ParserBase::feed': 'vs_parser_feed',
     'Pistache::Http::Private::ParserBase::parse': 'vs_parser_parse',
     'move': {'expr': '($0)'},
+    'std::exception::what': {'expr': '"(what)"'},
+    'Pistache::Async::Resolver::operator()': {'expr': '((void)(g_resolved++), 1)'}, 'Pistache::Async::Rejection::operator()': {'expr': '((void)(g_rejected++), 1)'},
     'operator->|std::__shared_ptr_access<Pistache::TimerPool::Entry, __gnu_cxx::_S_atomic, false, false>': {'expr': '(&vs_timer_slot)'},
     'std::unique_ptr<Pistache::Http::Experimental::Connection::RequestEntry>::operator bool': {'expr': '(($this)->has)'},
     'operator->|std::unique_ptr<Pistache::Http::Experimental::Connection::RequestEntry>': {'expr': '(&($0).v)'},
